@@ -1,7 +1,7 @@
 (* C06 — property theorems only.  Each is closed by `exact` of a lemma of C06_Proofs*.v. *)
 From Coq Require Import List NArith Bool Arith.
 From Dae.gen Require Import C06_Extracted.
-From Dae Require Import C06_Spec C06_Model C06_Proofs.
+From Dae Require Import C06_Spec C06_Model C06_Async C06_Session C06_Proofs.
 Import ListNotations.
 Open Scope N_scope.
 
@@ -153,6 +153,87 @@ Example C06_usable_after_timeout_nonvacuous :
   /\ (let '(r, st, rest) := sniff_tcp script in relay_read_all 32768 st rest)
      = ([22; 3; 1; 0; 100; 1; 0; 1; 2], RsEof).
 Proof. exact C06_usable_after_timeout_nonvacuous_proof. Qed.
+
+(* ---------------------------------------------------------------- the asynchronous fallback *)
+(* readStreamOnceAsync (readers without read deadlines).  As long as the deadline does not fire it is
+   the deadline path: same outcome, same buffer, same rest, no outstanding read; hence
+   C06_replay_exact and C06_usable_after_timeout carry over to it. *)
+Theorem C06_async_same_without_timeout :
+  forall script : list rd,
+    let '(r, st, pend, rest) := async_sniff script in
+    r <> TimedOut -> pend = None /\ sniff_tcp script = (r, st, rest).
+Proof. exact C06_async_same_without_timeout_proof. Qed.
+Print Assumptions C06_async_same_without_timeout.
+
+(* Full statements for the timeout case: whatever the drain and whoever runs first (the outstanding
+   read or the relay), the relay gets the buffered bytes followed by the connection's. *)
+Definition C06_async_replay_exact_full : Prop :=
+  forall (script : list rd) (drain p : N) (sc : sched),
+    let '(r, st, pend, rest) := async_sniff script in
+    drain <> 0 -> fst (async_relay drain sc p st pend rest) = s_buf st ++ fst (relay_conn rest).
+Definition C06_async_usable_after_timeout_full : Prop :=
+  forall (script : list rd) (p : N) (sc : sched),
+    let '(r, st, pend, rest) := async_sniff script in
+    r <> IoError -> blen (s_buf st) <= p ->
+    async_relay 0 sc p st pend rest = (s_buf st ++ fst (relay_conn rest), snd (relay_conn rest)).
+
+(* Both are FALSE of the faithful model.  (1) When the relay takes the buffer first
+   (TakeRelayPrefix / WriteTo), the read left outstanding by the timed-out sniff swallows the
+   client's next bytes into the sniffer buffer, which nobody drains: they are lost. *)
+Theorem C06_async_replay_exact_refuted :
+  exists (script : list rd) (drain p : N) (sc : sched),
+    let '(r, st, pend, rest) := async_sniff script in
+    drain <> 0 /\ fst (async_relay drain sc p st pend rest) <> s_buf st ++ fst (relay_conn rest).
+Proof. exact C06_async_replay_exact_refuted_proof. Qed.
+Print Assumptions C06_async_replay_exact_refuted.
+
+(* (2) dataError keeps ctx.Err(): the first relay Read returns it although the client goes on. *)
+Theorem C06_async_usable_after_timeout_refuted :
+  exists (script : list rd) (p : N) (sc : sched),
+    let '(r, st, pend, rest) := async_sniff script in
+    r = TimedOut /\ blen (s_buf st) <= p
+    /\ async_relay 0 sc p st pend rest <> (s_buf st ++ fst (relay_conn rest), snd (relay_conn rest)).
+Proof. exact C06_async_usable_after_timeout_refuted_proof. Qed.
+Print Assumptions C06_async_usable_after_timeout_refuted.
+
+(* What holds after a timeout: if the outstanding read completes before the relay touches the
+   sniffer, its bytes are appended in order and the buffer-first drains are exact. *)
+Theorem C06_async_replay_exact_partial :
+  forall (script : list rd) (drain p : N),
+    let '(r, st, pend, rest) := async_sniff script in
+    drain <> 0 ->
+    (match rest with e :: _ => rd_status e = RsOk | [] => True end) ->
+    fst (async_relay drain LateFirst p st pend rest) = s_buf st ++ fst (relay_conn rest).
+Proof. exact C06_async_replay_exact_partial_proof. Qed.
+Print Assumptions C06_async_replay_exact_partial.
+
+(* ---------------------------------------------------------------- control-side UDP sniff session *)
+(* For every history of datagrams of one flow (any arrival times in order, any answers of the
+   sniffer, any janitor races): as long as no undecided session expires, every datagram is forwarded
+   exactly once, in arrival order, or is still withheld in the undecided session. *)
+Theorem C06_udp_session_replay_exact :
+  forall h : list sevent,
+    monotone h = true ->
+    let '(outs, fwd, dropped, st) := run_session h in
+    dropped = [] -> fwd ++ pending st = map ev_data h.
+Proof. exact C06_udp_session_replay_exact_proof. Qed.
+Print Assumptions C06_udp_session_replay_exact.
+
+(* Full statement: nothing is ever withheld for good. *)
+Definition C06_udp_session_never_withholds_full : Prop :=
+  forall h : list sevent, monotone h = true ->
+    let '(outs, fwd, dropped, st) := run_session h in dropped = [].
+
+(* FALSE: datagrams withheld while the sniffer says "need more" are released only by a later datagram
+   that yields a verdict; there is no release on timeout, and when the session's TTL passes the
+   janitor closes it and they are gone. *)
+Theorem C06_udp_session_never_withholds_refuted :
+  exists h : list sevent,
+    monotone h = true /\
+    let '(outs, fwd, dropped, st) := run_session h in
+    dropped <> [] /\ fwd ++ pending st <> map ev_data h.
+Proof. exact C06_udp_session_never_withholds_refuted_proof. Qed.
+Print Assumptions C06_udp_session_never_withholds_refuted.
 
 (* ---------------------------------------------------------------- non-vacuity *)
 Example C06_nonvacuous :
